@@ -80,10 +80,16 @@ func TestVerifC05(t *testing.T) {
 	roots := []string{vBundledRoot}
 	if g := vGenRoot(); g != "" {
 		roots = append(roots, g)
+		if x := vGenExtraRoot(); x != "" {
+			roots = append(roots, x) // an asset without video: the audio track is the reference track
+		}
 	}
 	var cfgs []c05Cfg
 	for _, root := range roots {
 		for _, ap := range vAssetPaths(root) {
+			if !vExtraWanted(root, ap, "x_audio_only") {
+				continue
+			}
 			if vTimeOffsetAsset(ap) {
 				continue // see DESIGN: assets whose first segment does not start at media time 0 are probed by C02 only
 			}
